@@ -184,6 +184,15 @@ def discharge(ob, tier='quick'):
         ob.detail = s.reason_unknown()
     # a retry additionally varies the solver's random seed: an `unknown` is a search that did not finish,
     # and a different search order over the same (sub)set of hypotheses is as sound as the first
+    tried_cvc5 = False
+    if uses_strings(ob.pc + [ob.goal]):
+        # string / sequence reasoning: cvc5 decides most of what z3's seq solver leaves open -- ask it early
+        tried_cvc5 = True
+        r = run_cvc5(ob.pc + [neg], CVC5_TIMEOUT_MS * scale)
+        if r == 'unsat':
+            ob.status, ob.backend = 'proved', 'cvc5'
+            ob.time = time.time() - t0
+            return ob
     for sub, seed in [(sub, seed) for seed in ((0, 11) if tier == 'retry' else (0,)) for sub in subsets]:
         s = _solver(max(quickto, full // 2), True, seed)
         for i in sub:
@@ -215,7 +224,7 @@ def discharge(ob, tier='quick'):
             return ob
         ob.detail = s.reason_unknown()
     # cvc5 on the SMT-LIB rendering
-    r = run_cvc5(ob.pc + [neg], CVC5_TIMEOUT_MS * scale)
+    r = run_cvc5(ob.pc + [neg], CVC5_TIMEOUT_MS * scale) if not tried_cvc5 else 'unknown'
     if r == 'unsat':
         ob.status, ob.backend = 'proved', 'cvc5'
     elif r == 'sat':
